@@ -1045,7 +1045,14 @@ func runParts() {
 
 	// ---- edge, loopback (families.go)
 	edgeCases := runEdge(thorough)
-	loopCases := runLoopback()
+	var loopCases int64
+	if rep.Failed() {
+		// the verdict is already a violation; a tree that misframes could leave a socket exchange
+		// blocked, and waiting for the stall observer would only delay the report
+		rep.Count("loopback_skipped_because_a_violation_was_already_found", 1)
+	} else {
+		loopCases = runLoopback()
+	}
 
 	distinct := matrixCases + streamCases + connCases + int64(len(mals)+len(gens)) + edgeCases + loopCases
 	rep.NonTrivial(distinct)
@@ -1137,7 +1144,7 @@ func main() {
 	rep.Sample(Case{Part: "reject", T: -1, Mal: "payload-above-maximum/complete-frame", Gen: genOverMax, ID: 0x80, Len: maxData + 1, Tail: true})
 	rep.Sample(Case{Part: "loopback", T: 64})
 	rep.Assume("a Conn on which SetThreshold was never called (WrapConn, Listener.Accept, DialMC) has compression disabled, as the protocol starts every connection")
-	rep.Assume("loopback part: 127.0.0.1 TCP; a connection that cannot be set up is counted as skipped, a read that waits longer than 120 s after the peer's write returned is non-termination")
+	rep.Assume("loopback part: 127.0.0.1 TCP; a connection that cannot be set up is counted as skipped; an exchange is blocked for good when the whole process has been idle for 20 consecutive observations (engine.WaitDone, no wall-clock limit)")
 	rep.Assume("ref/refframe (frame reader on compress/zlib) and ref/refwire are trusted; pinned by self-tests against hand-assembled frames (stored-block zlib stream with hand-computed Adler-32) and the protocol VarInt tables")
 	rep.Assume("sync.Pool hand-out order (bufPool, zlibPool) is not steered: default order only")
 	finish()
